@@ -643,7 +643,10 @@ class C20(Property):
         def ns(l):
             return ','.join(map(str, l)) or '-'
         ni = case.get('ni', 1)
-        toks = [str(self.w_of(case)), str(case['nk']) + ('x%d' % ni if ni > 1 else '')]
+        ex = self.th_exact(case)
+        # exact thresholds (Fraction / Decimal) go to the model as p/q: its constructor derives the bucket width
+        toks = [str(self.w_of(case)) if ex is None else '%d/%d' % (ex.numerator, ex.denominator),
+                str(case['nk']) + ('x%d' % ni if ni > 1 else '')]
         if case.get('sp'):
             run = []
             for i, op in enumerate(case['ops']):
